@@ -14,7 +14,7 @@ package task
 // Run executes every command of the task in order through the runner.
 //@ func (*Task).Run
 //@ requires runner != nil
-//@ modifies ranCount
+//@ modifies ranCount, fsid
 //@ ensures ranCount == store(old(ranCount), t.Name, old(ranCount)[t.Name] + 1)
 //@ ensures result1 == nil ==> len(result0) == len(t.Commands)
 //@ ensures result1 == nil ==> forall k int :: {result0[k]} 0 <= k && k < len(result0) ==> result0[k].Cmd == t.Commands[k]
